@@ -54,6 +54,7 @@ def build_tools():
     if rc != 0:
         notes.append("extractor build failed: " + out[-2000:])
     shutil.copyfile(os.path.join(REPO, "go.sum"), os.path.join(VERIF, "harness", "go.sum"))
+    sh(["go", "mod", "edit", "-replace=github.com/SKAARHOJ/rawpanel-lib=" + REPO], cwd=os.path.join(VERIF, "harness"), env=GOENV)
     hb = os.path.join(BIN, "harness")
     if os.path.exists(hb):
         os.remove(hb)  # never run a stale binary
